@@ -286,7 +286,26 @@ class FunctionAnalysis:
                 return  # self.x = value: ordinary state update
             self.report(node, Taint(b.root, b.path + "." + target.attr, None, b.chain), f"attribute {'update' if aug else 'assignment'} `{ast.unparse(target)}` on an object owned by the caller")
 
+    def alignment(self, expr, stmt):
+        """`x[1:] - x[:-1]` on a raw argument: positional for an ndarray, but pandas aligns the two slices on their
+        index labels (NaN at both ends, zero elsewhere) - the library itself hands Series to such parameters
+        (`prod_data["Days"] / tau` as a time grid).  np.diff(x) or np.asarray(x) first are positional for every input."""
+        for n in ast.walk(expr):
+            if not isinstance(n, ast.BinOp):
+                continue
+            l, r = n.left, n.right
+            if not (isinstance(l, ast.Subscript) and isinstance(r, ast.Subscript) and isinstance(l.slice, ast.Slice) and isinstance(r.slice, ast.Slice)):
+                continue
+            if not (isinstance(l.value, ast.Name) and isinstance(r.value, ast.Name) and l.value.id == r.value.id):
+                continue
+            if ast.dump(l.slice) == ast.dump(r.slice):
+                continue
+            t = self.state.get(l.value.id)
+            if t is not None and t.path == t.root and len(t.chain) == 1 and t.root != self.self_name:
+                self.report(stmt, t, f"label-aligned arithmetic between two slices `{ast.unparse(n)[:50]}` of an argument that may be a pandas Series")
+
     def calls(self, expr, stmt):
+        self.alignment(expr, stmt)
         for n in ast.walk(expr):
             if not isinstance(n, ast.Call):
                 continue
@@ -593,13 +612,18 @@ def helper(x):
     x[0] = 0
 def uses_helper(table: "NDArray"):
     helper(table)
+def steps(time, dx):
+    return (time[1:] - time[:-1]) / dx
+def steps_ok(time, dx):
+    time = np.asarray(time)
+    return (time[1:] - time[:-1]) / dx + np.diff(time)
 '''
 
 
 def selftest():
     res, _n, nd = analyse_trees({"m": ast.parse(SELFTEST_SRC)})
     got = sorted((f.func, f.path) for f in res["m"])
-    want = sorted([("R.bad", "self.levels"), ("plot", "res.levels"), ("obj", "days"), ("helper", "x"), ("uses_helper", "table")])
+    want = sorted([("R.bad", "self.levels"), ("plot", "res.levels"), ("obj", "days"), ("helper", "x"), ("uses_helper", "table"), ("steps", "time")])
     return got == want and nd.get("levels") == 2
 
 
@@ -634,6 +658,13 @@ def check_modules(ctx, rule, anchored, rest, floor=1):
                 nontrivial=True, functions_scanned=sum(1 for _ in _functions(m.tree)), ranks_known=ndims,
             )
         for fd in relevant:
+            if fd.what.startswith("label-aligned"):
+                ctx.bad(
+                    rule, f"{mn}.{fd.func}:slice arithmetic on argument {fd.path}", f"{m.relpath}:{fd.node.lineno}",
+                    "arithmetic between shifted slices of an argument is positional for every admissible input (np.diff, or np.asarray first): a pandas Series - which the package itself passes as a time grid - aligns the slices on their labels instead",
+                    signature="label alignment " + fd.path, expression=fd.what, statement=ast.unparse(fd.node)[:120],
+                )
+                continue
             ctx.bad(
                 rule, f"{mn}.{fd.func}:write through view of {fd.path}", f"{m.relpath}:{fd.node.lineno}",
                 "data owned by the caller (arguments, tables) and the stored arrays of a simulated object are never modified in place",
